@@ -104,7 +104,7 @@ def register_tls_accept(R):
              "(ghost.handler_calls == old(ghost.handler_calls) + 1) or (ghost.handler_calls == old(ghost.handler_calls) and old(stream).close_requested)", "C17 C14"),
         ],
         raises={"BaseException": [ONLY_BASE, ("connection-closed-when-the-handshake-is-cancelled-or-fails", "old(stream).close_requested", "C17 C14")]},
-        modifies=["stream.close_requested", "ghost.handler_calls", "ghost.WIRE", "ghost.IN", "ghost.TLSOUT", "ghost.tls_cause", "ghost.recv_calls", "ghost.EOF",
+        modifies=["stream.close_requested", "ghost.handler_calls", "ghost.WIRE", "ghost.IN", "ghost.TLSOUT", "ghost.tls_cause", "ghost.tls_ops_returned", "ghost.recv_calls", "ghost.EOF",
                   "ghost.io_errors", "ghost.locks_held"],
         env={"exc_universe": UNIVERSE, "callee_raise_filter": {"AsyncBaseTransport.aclose": "not typeof(exc, 'Exception')"}},
         tags="C17 C14",
